@@ -355,6 +355,12 @@ def true_quantities(o, x):
 
 
 def cg_oracle(o):
+    with np.errstate(all="ignore"), warnings.catch_warnings():
+        warnings.simplefilter("ignore")
+        return _cg_oracle(o)
+
+
+def _cg_oracle(o):
     """The property on one recorded CG run, from dense NumPy quantities only."""
     sp = o["spec"]
     c = sp["ctrl"]
@@ -532,6 +538,10 @@ def gen_ctrl(rng, kind, n_hint=5, tight=False):
             c["limit"] = 4 * n_hint + 10
     else:
         c["tol"] = tol
+        if kind == "gradinf" and c["limit"] is None and not tight:
+            # ||grad||_inf / |E| never gets small when the minimum energy is 0 (b = 0): without a limit
+            # CG then runs until gamma underflows (hundreds of thousands of iterations)
+            c["limit"] = 4 * n_hint + 10
     return c
 
 
@@ -658,7 +668,7 @@ class C14(C.Check):
 
     def _cases(self, ctx):
         rng = ctx.rng(14)
-        nctrl, ncg, nbig = (150, 60, 40) if ctx.quick else (1500, 400, 300)
+        nctrl, ncg, nbig = (100, 36, 30) if ctx.quick else (1500, 400, 300)
         cor = ctx.corpus()
         ctrl = [c["spec"] for c in cor if c.get("kind") == "ctrl"] + [gen_ctrl_spec(rng, i) for i in range(nctrl)]
         cg = [c["spec"] for c in cor if c.get("kind") == "cg"] + [gen_cg_spec(rng, i) for i in range(ncg)]
